@@ -63,7 +63,9 @@ type machine struct {
 
 	ntCross, ntBatchSD, ntAfterClose bool
 	dbgCalls                         int
-	closeAfter                       int // Close is not drawn before this many steps (keeps long open histories frequent)
+	closeAfter                       int  // Close is not drawn before this many steps (keeps long open histories frequent)
+	bulks                            int  // bulkSet actions so far (at most 1 per history)
+	bulkAllowed                      bool // drawn per history (1 in 4): large stores make every later step slower
 }
 
 func (m *machine) label(l string) { m.labels[l] = true }
@@ -379,6 +381,29 @@ func (m *machine) set(t *rapid.T) {
 	m.mod.set(v.realm, k, val)
 }
 
+// bulkSet writes 258..330 keys <prefix><hi><lo> through one view (and into the model): iterations, prefix deletions and
+// scans then run over more entries than any fixed-size chunk or small buffer of an implementation holds, and a consumer
+// that stops early stops in front of most of them.
+func (m *machine) bulkSet(t *rapid.T) {
+	if m.mod.closed || m.bulks >= 1 || !m.bulkAllowed {
+		t.Skip("one bulk write per history, on an open store")
+	}
+	m.bulks++
+	vi, v := m.pickView(t)
+	prefix := rapid.SliceOfN(rapid.SampledFrom(alphabet), 0, 1).Draw(t, "bulkPrefix")
+	n := rapid.IntRange(258, 330).Draw(t, "bulkN")
+	m.act("v%d.Set(%s||i, i) for i<%d", vi, hx(prefix), n)
+	m.label("bulk:set_258_to_330_keys")
+	for i := 0; i < n; i++ {
+		k := append(clone(prefix), byte(i>>8), byte(i))
+		val := []byte{byte(i >> 8), byte(i)}
+		if err := v.st.Set(clone(k), clone(val)); err != nil {
+			m.fail(t, "v%d.Set(%s) failed: %v", vi, hx(k), err)
+		}
+		m.mod.set(v.realm, k, val)
+	}
+}
+
 func (m *machine) delete(t *rapid.T) {
 	vi, v := m.pickView(t)
 	k := m.genKey(t, v)
@@ -538,6 +563,9 @@ func (m *machine) iterate(t *rapid.T, keysOnly bool) {
 	stop := 0
 	if rapid.Bool().Draw(t, "stops") {
 		stop = rapid.IntRange(1, 4).Draw(t, "stopAfter")
+		if m.bulks > 0 && rapid.IntRange(0, 3).Draw(t, "farStop") == 0 {
+			stop = rapid.SampledFrom([]int{255, 256, 257, 300}).Draw(t, "stopAfterFar")
+		}
 	}
 	fn := "Iterate"
 	if keysOnly {
@@ -570,6 +598,9 @@ func (m *machine) iterate(t *rapid.T, keysOnly bool) {
 	}
 	if stop > 0 && all > stop {
 		m.label("iterate:consumer_stopped_early")
+		if all > 256 {
+			m.label("iterate:consumer_stopped_early_in_more_than_256_entries")
+		}
 	}
 	if stop > 0 && all == stop {
 		m.label("iterate:consumer_stopped_on_last_entry")
@@ -833,9 +864,12 @@ func (m *machine) invariant(t *rapid.T) {
 		return
 	}
 	for i, v := range m.views {
-		// the root view (whole store) is scanned after every action, the others in rotation; direction and
-		// Iterate/IterateKeys alternate
+		// the root view (whole store) is scanned after every action (every fourth action once a bulk write made the
+		// store large), the others in rotation; direction and Iterate/IterateKeys alternate
 		if i != 0 && (m.step+i)%3 != 0 {
+			continue
+		}
+		if m.bulks > 0 && (m.step+i)%4 != 0 {
 			continue
 		}
 		backward := (m.step+i)%2 == 0
@@ -872,6 +906,7 @@ func TestViewTreeModel(t *testing.T) {
 			m.dbgMode = rapid.SampledFrom([]string{"callback", "callback", "nil-callback", "filtered"}).Draw(rt, "debugMode")
 		}
 		m.closeAfter = rapid.IntRange(0, 100).Draw(rt, "closeAfter")
+		m.bulkAllowed = rapid.IntRange(0, 3).Draw(rt, "bulkAllowed") == 0
 		m.views = []*view{{st: m.build(m.stack), realm: nil, name: "v0"}}
 		m.log = append(m.log, "v0 = "+m.stack)
 		// a few views up front, so that most histories run on a real tree from the first write on
@@ -893,6 +928,7 @@ func TestViewTreeModel(t *testing.T) {
 			"set3":              m.set,
 			"set4":              m.set,
 			"set5":              m.set,
+			"bulkSet":           m.bulkSet,
 			"get3":              m.get,
 			"iterate3":          func(t *rapid.T) { m.iterate(t, false) },
 			"iterateKeys2":      func(t *rapid.T) { m.iterate(t, true) },
